@@ -21,6 +21,8 @@ def main():
         print("refusing: /repo is not clean")
         return 2
     res = {}
+    if sys.argv[1:] and os.path.exists(os.path.join(ROOT, "seeded", "RESEED.json")):
+        res = json.load(open(os.path.join(ROOT, "seeded", "RESEED.json")))      # a partial run updates the last full one
     for i in ids:
         d = os.path.join(ROOT, "seeded", i)
         patch = os.path.join(d, "patch.diff")
